@@ -438,6 +438,7 @@ class Engine:
         return v
 
     def step_read(s, v, p):
+        if v is None and p != '*': return None        # uninitialised aggregate being built field by field
         if p == '*':
             if isinstance(v, Ref): return s.read(v.cell, v.path)
             if isinstance(v, (BoxV, PtrWrap)): return v.cell.v
@@ -483,8 +484,12 @@ class Engine:
                 inner = upd(Seq(v.fields[lo:hi]), path[1:])
                 v2 = copy.copy(v); v2.fields = v.fields[:lo] + inner.fields + v.fields[hi:]; return v2
             if isinstance(p, tuple) and p[0] == 'fromend': p = len(v.fields) - p[1]
-            if v is None: raise Missing('write into uninitialised aggregate')
-            v2 = copy.copy(v); v2.fields = list(v.fields); v2.fields[p] = upd(v.fields[p], path[1:]); return v2
+            if v is None:
+                if not isinstance(p, int): raise Missing('write into uninitialised aggregate')
+                v = Tup([])          # field-by-field initialisation of a tuple / struct local
+            v2 = copy.copy(v); v2.fields = list(v.fields)
+            if isinstance(p, int) and p >= len(v2.fields) and isinstance(v2, Tup): v2.fields += [None] * (p + 1 - len(v2.fields))
+            v2.fields[p] = upd(v2.fields[p], path[1:]); return v2
         cell.v = upd(cell.v, path)
 
     def wr(s, ref, v): s.write(ref.cell, list(ref.path), v)
